@@ -233,6 +233,28 @@ impl C02 {
                 deliver(&mut b, vec![TokFault::FlipFooter { byte, bit }]);
             }
         }
+        // corruptions of the tag / signature that cancel under a folded comparison
+        if !(purpose == Purp::Public && matches!(bk, Bk::V1)) {
+            let t0 = total - tl;
+            for dist in [1usize, 2, 4, 8, 16, 24, 32, 48] {
+                for i in 0..tl {
+                    let j = i + dist;
+                    if j >= tl {
+                        break;
+                    }
+                    for bit in [0u8, 7, (i % 6 + 1) as u8] {
+                        deliver(&mut b, vec![TokFault::FlipPayload { byte: t0 + i, bit }, TokFault::FlipPayload { byte: t0 + j, bit }]);
+                    }
+                }
+            }
+            for n in [1usize, 2, 4, 8, 16] {
+                let mut a = 0;
+                while a + 2 * n <= tl {
+                    deliver(&mut b, vec![TokFault::SwapPayloadRanges { a: t0 + a, b: t0 + a + n, n }]);
+                    a += n;
+                }
+            }
+        }
         for keep in 0..total {
             deliver(&mut b, vec![TokFault::TruncBack { keep }]);
         }
